@@ -331,6 +331,9 @@ pub fn history_main(prop: &PropDef, args: &[String]) {
 fn history_violation(prop: &PropDef, tier: Tier, seed: u64, scalar: bool, reverse: bool, runs: &[u64]) -> Option<(String, String)> {
     let list = runs.iter().map(|r| r.to_string()).collect::<Vec<_>>().join(",");
     let mut cmd = Command::new(exe());
+    // one malloc arena: with the baton serialising the threads, the allocation sequence - and so which freed block a
+    // later allocation lands on - is then a function of the run history, not of which arena a new thread was handed
+    cmd.env("MALLOC_ARENA_MAX", "1");
     cmd.arg("history").arg(prop.id).arg(tier.name()).arg(seed.to_string()).arg(list);
     if scalar {
         cmd.env("WIREFILTER_USE_AVX2", "0");
@@ -355,6 +358,9 @@ fn history_violation(prop: &PropDef, tier: Tier, seed: u64, scalar: bool, revers
 fn history_digest(prop: &PropDef, tier: Tier, seed: u64, scalar: bool, reverse: bool, runs: &[u64]) -> Option<String> {
     let list = runs.iter().map(|r| r.to_string()).collect::<Vec<_>>().join(",");
     let mut cmd = Command::new(exe());
+    // one malloc arena: with the baton serialising the threads, the allocation sequence - and so which freed block a
+    // later allocation lands on - is then a function of the run history, not of which arena a new thread was handed
+    cmd.env("MALLOC_ARENA_MAX", "1");
     cmd.arg("history").arg(prop.id).arg(tier.name()).arg(seed.to_string()).arg(list);
     if scalar {
         cmd.env("WIREFILTER_USE_AVX2", "0");
@@ -409,6 +415,9 @@ fn eval_tape_logged(prop: &PropDef, tier: Tier, scalar: bool, run: u64, seed: u6
     }
     std::fs::write(&path, doc.to_string()).expect("write tape file");
     let mut cmd = Command::new(exe());
+    // one malloc arena: with the baton serialising the threads, the allocation sequence - and so which freed block a
+    // later allocation lands on - is then a function of the run history, not of which arena a new thread was handed
+    cmd.env("MALLOC_ARENA_MAX", "1");
     cmd.arg("eval").arg(prop.id).arg(tier.name()).arg(&path);
     if trace {
         cmd.arg("--trace");
@@ -670,6 +679,7 @@ pub fn driver_main(prop: &PropDef, tier: Tier) -> i32 {
     for w in 0..nworkers {
         let scalar = prop.env_groups && w % 2 == 1;
         let mut cmd = Command::new(exe());
+        cmd.env("MALLOC_ARENA_MAX", "1");
         // with env groups, workers 2p (SIMD) and 2p+1 (scalar) execute the same run indices (same tapes)
         let (first, stride) = if prop.env_groups && nworkers >= 2 { (w / 2, nworkers / 2) } else { (w, nworkers) };
         if prop.env_groups && nworkers >= 2 && w / 2 >= nworkers / 2 {
@@ -1148,7 +1158,7 @@ pub fn replay_main(lookup: fn(&str) -> Option<&'static PropDef>, file: &str) -> 
     if let Some(cmd) = v.get("cmd").and_then(|c| c.as_str()) {
         // extra-phase replay (e.g. Miri): the file carries the command line
         println!("replaying via: {cmd}");
-        let st = Command::new("sh").arg("-c").arg(cmd).status();
+        let st = Command::new("sh").arg("-c").arg(cmd).env("MALLOC_ARENA_MAX", "1").status();
         return match st {
             Ok(s) if s.success() => 0,
             Ok(_) => 1,
